@@ -1,7 +1,8 @@
 (* API-level model of one endpoint of a TLCP stream connection: tlcp/conn.go Conn.Read, Write,
    Close, CloseWrite, closeNotify, Handshake / HandshakeContext / handshakeContext (with the
-   interrupter goroutine), halfConn.setErrorLocked, readRecordOrCCS after the handshake,
-   retryReadRecord, sendAlert(Locked), the activeCall closed bit.
+   interrupter goroutine), halfConn.setErrorLocked, noteFatal / fatalError (the connection-wide
+   latch c.fatal), readRecordOrCCS after the handshake, retryReadRecord, sendAlert(Locked), the
+   activeCall closed bit.
 
    One endpoint is a state machine driven by a history of sequential calls.  The incoming
    transport is a list of events already decoded at record level (genuine records by content,
@@ -97,40 +98,43 @@ Record state := mkS {
   s_raw : list event;
   s_wire : list event;
   s_ended : bool;
-  s_peergone : bool
+  s_peergone : bool;
+  s_fatal : option eclass        (* c.fatal: the first fatal error of either half (connection-wide latch) *)
 }.
 
 Definition set_hs (st : state) (v : hstatus) : state :=
-  mkS (s_plan st) v (s_in_err st) (s_out_err st) (s_cns st) (s_cn_err st) (s_closed st) (s_rawclosed st) (s_input st) (s_hand st) (s_retry st) (s_raw st) (s_wire st) (s_ended st) (s_peergone st).
+  mkS (s_plan st) v (s_in_err st) (s_out_err st) (s_cns st) (s_cn_err st) (s_closed st) (s_rawclosed st) (s_input st) (s_hand st) (s_retry st) (s_raw st) (s_wire st) (s_ended st) (s_peergone st) (s_fatal st).
 Definition set_in_err (st : state) (v : option eclass) : state :=
-  mkS (s_plan st) (s_hs st) v (s_out_err st) (s_cns st) (s_cn_err st) (s_closed st) (s_rawclosed st) (s_input st) (s_hand st) (s_retry st) (s_raw st) (s_wire st) (s_ended st) (s_peergone st).
+  mkS (s_plan st) (s_hs st) v (s_out_err st) (s_cns st) (s_cn_err st) (s_closed st) (s_rawclosed st) (s_input st) (s_hand st) (s_retry st) (s_raw st) (s_wire st) (s_ended st) (s_peergone st) (s_fatal st).
 Definition set_out_err (st : state) (v : option eclass) : state :=
-  mkS (s_plan st) (s_hs st) (s_in_err st) v (s_cns st) (s_cn_err st) (s_closed st) (s_rawclosed st) (s_input st) (s_hand st) (s_retry st) (s_raw st) (s_wire st) (s_ended st) (s_peergone st).
+  mkS (s_plan st) (s_hs st) (s_in_err st) v (s_cns st) (s_cn_err st) (s_closed st) (s_rawclosed st) (s_input st) (s_hand st) (s_retry st) (s_raw st) (s_wire st) (s_ended st) (s_peergone st) (s_fatal st).
 Definition set_cns (st : state) (v : bool) : state :=
-  mkS (s_plan st) (s_hs st) (s_in_err st) (s_out_err st) v (s_cn_err st) (s_closed st) (s_rawclosed st) (s_input st) (s_hand st) (s_retry st) (s_raw st) (s_wire st) (s_ended st) (s_peergone st).
+  mkS (s_plan st) (s_hs st) (s_in_err st) (s_out_err st) v (s_cn_err st) (s_closed st) (s_rawclosed st) (s_input st) (s_hand st) (s_retry st) (s_raw st) (s_wire st) (s_ended st) (s_peergone st) (s_fatal st).
 Definition set_cn_err (st : state) (v : option eclass) : state :=
-  mkS (s_plan st) (s_hs st) (s_in_err st) (s_out_err st) (s_cns st) v (s_closed st) (s_rawclosed st) (s_input st) (s_hand st) (s_retry st) (s_raw st) (s_wire st) (s_ended st) (s_peergone st).
+  mkS (s_plan st) (s_hs st) (s_in_err st) (s_out_err st) (s_cns st) v (s_closed st) (s_rawclosed st) (s_input st) (s_hand st) (s_retry st) (s_raw st) (s_wire st) (s_ended st) (s_peergone st) (s_fatal st).
 Definition set_closed (st : state) (v : bool) : state :=
-  mkS (s_plan st) (s_hs st) (s_in_err st) (s_out_err st) (s_cns st) (s_cn_err st) v (s_rawclosed st) (s_input st) (s_hand st) (s_retry st) (s_raw st) (s_wire st) (s_ended st) (s_peergone st).
+  mkS (s_plan st) (s_hs st) (s_in_err st) (s_out_err st) (s_cns st) (s_cn_err st) v (s_rawclosed st) (s_input st) (s_hand st) (s_retry st) (s_raw st) (s_wire st) (s_ended st) (s_peergone st) (s_fatal st).
 Definition set_rawclosed (st : state) (v : bool) : state :=
-  mkS (s_plan st) (s_hs st) (s_in_err st) (s_out_err st) (s_cns st) (s_cn_err st) (s_closed st) v (s_input st) (s_hand st) (s_retry st) (s_raw st) (s_wire st) (s_ended st) (s_peergone st).
+  mkS (s_plan st) (s_hs st) (s_in_err st) (s_out_err st) (s_cns st) (s_cn_err st) (s_closed st) v (s_input st) (s_hand st) (s_retry st) (s_raw st) (s_wire st) (s_ended st) (s_peergone st) (s_fatal st).
 Definition set_input (st : state) (v : list byte) : state :=
-  mkS (s_plan st) (s_hs st) (s_in_err st) (s_out_err st) (s_cns st) (s_cn_err st) (s_closed st) (s_rawclosed st) v (s_hand st) (s_retry st) (s_raw st) (s_wire st) (s_ended st) (s_peergone st).
+  mkS (s_plan st) (s_hs st) (s_in_err st) (s_out_err st) (s_cns st) (s_cn_err st) (s_closed st) (s_rawclosed st) v (s_hand st) (s_retry st) (s_raw st) (s_wire st) (s_ended st) (s_peergone st) (s_fatal st).
 Definition set_hand (st : state) (v : bool) : state :=
-  mkS (s_plan st) (s_hs st) (s_in_err st) (s_out_err st) (s_cns st) (s_cn_err st) (s_closed st) (s_rawclosed st) (s_input st) v (s_retry st) (s_raw st) (s_wire st) (s_ended st) (s_peergone st).
+  mkS (s_plan st) (s_hs st) (s_in_err st) (s_out_err st) (s_cns st) (s_cn_err st) (s_closed st) (s_rawclosed st) (s_input st) v (s_retry st) (s_raw st) (s_wire st) (s_ended st) (s_peergone st) (s_fatal st).
 Definition set_retry (st : state) (v : nat) : state :=
-  mkS (s_plan st) (s_hs st) (s_in_err st) (s_out_err st) (s_cns st) (s_cn_err st) (s_closed st) (s_rawclosed st) (s_input st) (s_hand st) v (s_raw st) (s_wire st) (s_ended st) (s_peergone st).
+  mkS (s_plan st) (s_hs st) (s_in_err st) (s_out_err st) (s_cns st) (s_cn_err st) (s_closed st) (s_rawclosed st) (s_input st) (s_hand st) v (s_raw st) (s_wire st) (s_ended st) (s_peergone st) (s_fatal st).
 Definition set_raw (st : state) (v : list event) : state :=
-  mkS (s_plan st) (s_hs st) (s_in_err st) (s_out_err st) (s_cns st) (s_cn_err st) (s_closed st) (s_rawclosed st) (s_input st) (s_hand st) (s_retry st) v (s_wire st) (s_ended st) (s_peergone st).
+  mkS (s_plan st) (s_hs st) (s_in_err st) (s_out_err st) (s_cns st) (s_cn_err st) (s_closed st) (s_rawclosed st) (s_input st) (s_hand st) (s_retry st) v (s_wire st) (s_ended st) (s_peergone st) (s_fatal st).
 Definition set_wire (st : state) (v : list event) : state :=
-  mkS (s_plan st) (s_hs st) (s_in_err st) (s_out_err st) (s_cns st) (s_cn_err st) (s_closed st) (s_rawclosed st) (s_input st) (s_hand st) (s_retry st) (s_raw st) v (s_ended st) (s_peergone st).
+  mkS (s_plan st) (s_hs st) (s_in_err st) (s_out_err st) (s_cns st) (s_cn_err st) (s_closed st) (s_rawclosed st) (s_input st) (s_hand st) (s_retry st) (s_raw st) v (s_ended st) (s_peergone st) (s_fatal st).
 Definition set_ended (st : state) (v : bool) : state :=
-  mkS (s_plan st) (s_hs st) (s_in_err st) (s_out_err st) (s_cns st) (s_cn_err st) (s_closed st) (s_rawclosed st) (s_input st) (s_hand st) (s_retry st) (s_raw st) (s_wire st) v (s_peergone st).
+  mkS (s_plan st) (s_hs st) (s_in_err st) (s_out_err st) (s_cns st) (s_cn_err st) (s_closed st) (s_rawclosed st) (s_input st) (s_hand st) (s_retry st) (s_raw st) (s_wire st) v (s_peergone st) (s_fatal st).
 Definition set_peergone (st : state) (v : bool) : state :=
-  mkS (s_plan st) (s_hs st) (s_in_err st) (s_out_err st) (s_cns st) (s_cn_err st) (s_closed st) (s_rawclosed st) (s_input st) (s_hand st) (s_retry st) (s_raw st) (s_wire st) (s_ended st) v.
+  mkS (s_plan st) (s_hs st) (s_in_err st) (s_out_err st) (s_cns st) (s_cn_err st) (s_closed st) (s_rawclosed st) (s_input st) (s_hand st) (s_retry st) (s_raw st) (s_wire st) (s_ended st) v (s_fatal st).
+Definition set_fatal (st : state) (v : option eclass) : state :=
+  mkS (s_plan st) (s_hs st) (s_in_err st) (s_out_err st) (s_cns st) (s_cn_err st) (s_closed st) (s_rawclosed st) (s_input st) (s_hand st) (s_retry st) (s_raw st) (s_wire st) (s_ended st) (s_peergone st) v.
 
 Definition init (p : plan) : state :=
-  mkS p HNotRun None None false None false false [] false 0 [] [] false false.
+  mkS p HNotRun None None false None false false [] false 0 [] [] false false None.
 
 Definition max_useless : nat := 16.
 
@@ -144,6 +148,18 @@ Definition tx (st : state) (it : sitem) : list sitem := if tx_dead st then [] el
 Definition alert_level (code : N) : N := if (code =? 100)%N || (code =? 0)%N then 1%N else 2%N.
 Definition send_alert (st : state) (code : N) : state * list sitem :=
   (set_out_err st (Some (XLocal code)), tx st (SAlert (alert_level code) code)).
+
+(* noteFatal: the first fatal error of either half becomes the connection's error.  io.EOF
+   (close_notify or a clean end of the transport), errShutdown and timeouts (here: a call that
+   would block) are not fatal; fatalError is `s_fatal` *)
+Definition note_fatal (st : state) (e : option eclass) : state :=
+  match e with
+  | None | Some XEof | Some XShutdown | Some XBlock => st
+  | Some x => match s_fatal st with
+              | None => set_fatal st (Some x)
+              | Some _ => st
+              end
+  end.
 
 (* ---------------- readRecordOrCCS after the handshake ---------------- *)
 Inductive scanres :=
@@ -278,20 +294,25 @@ Definition raw_head_is_alert (st : state) : bool :=
   | _ => false
   end.
 
-(* the loop `for c.input.Len() == 0 { readRecord; if c.hand.Len() > 0 { no_renegotiation } }` *)
+(* what Conn.Read does around each of its two c.readRecord() calls: an error is noted on the
+   connection and returned; a handshake record (c.hand.Len() > 0: renegotiation) is rejected on
+   the spot with no_renegotiation, latched on the read half and noted on the connection *)
+Definition read_checked (st : state) : state * option eclass * list sitem :=
+  let '(st1, e, sent) := read_record st in
+  match e with
+  | Some x => (note_fatal st1 (Some x), Some x, sent)
+  | None =>
+      if s_hand st1 then
+        let '(st2, sent2) := send_alert st1 100 in
+        (note_fatal (set_in_err st2 (Some (XLocal 100))) (Some (XLocal 100)), Some (XLocal 100), sent ++ sent2)
+      else (st1, None, sent)
+  end.
+
+(* the loop `for c.input.Len() == 0 { readRecord; noteFatal; if c.hand.Len() > 0 { no_renegotiation } }` *)
 Definition fill (st : state) : state * option eclass * list sitem :=
   match s_input st with
   | _ :: _ => (st, None, [])
-  | [] =>
-      let '(st1, e, sent) := read_record st in
-      match e with
-      | Some x => (st1, Some x, sent)
-      | None =>
-          if s_hand st1 then
-            let '(st2, sent2) := send_alert st1 100 in
-            (set_in_err st2 (Some (XLocal 100)), Some (XLocal 100), sent ++ sent2)
-          else (st1, None, sent)
-      end
+  | [] => read_checked st
   end.
 
 Definition do_read (st : state) (n : nat) : state * outcome :=
@@ -301,16 +322,22 @@ Definition do_read (st : state) (n : nat) : state * outcome :=
   | Some e => (st0, fail e sent0)
   | None =>
       if Nat.eqb n 0 then (st0, mkO None 0 [] sent0) else
-      let '(st1, fe, sent1) := fill st0 in
-      match fe with
-      | Some e => (st1, fail e (sent0 ++ sent1))
+      (* a fatal error of either half: nothing is delivered any more, buffered plaintext included *)
+      match s_fatal st0 with
+      | Some e => (st0, fail e sent0)
       | None =>
-          let d := firstn n (s_input st1) in
-          let st2 := set_input st1 (skipn n (s_input st1)) in
-          if negb (Nat.eqb (length d) 0) && Nat.eqb (length (s_input st2)) 0 && raw_head_is_alert st2 then
-            let '(st3, pe, sent3) := read_record st2 in
-            (st3, mkO pe 0 d (sent0 ++ sent1 ++ sent3))
-          else (st2, mkO None 0 d (sent0 ++ sent1))
+          let '(st1, fe, sent1) := fill st0 in
+          match fe with
+          | Some e => (st1, fail e (sent0 ++ sent1))
+          | None =>
+              let d := firstn n (s_input st1) in
+              let st2 := set_input st1 (skipn n (s_input st1)) in
+              if negb (Nat.eqb (length d) 0) && Nat.eqb (length (s_input st2)) 0 && raw_head_is_alert st2 then
+                (* the look-ahead returns (n, err): the bytes together with the error *)
+                let '(st3, pe, sent3) := read_checked st2 in
+                (st3, mkO pe 0 d (sent0 ++ sent1 ++ sent3))
+              else (st2, mkO None 0 d (sent0 ++ sent1))
+          end
       end
   end.
 
@@ -323,12 +350,17 @@ Definition do_write (st : state) (bs : list byte) : state * outcome :=
       match s_out_err st0 with
       | Some e => (st0, fail e sent0)
       | None =>
-          if s_cns st0 then (st0, fail XShutdown sent0)
-          else match bs with
-               | [] => (st0, mkO None 0 [] sent0)
-               | _ => if tx_dead st0 then (set_out_err st0 (Some XClosed), fail XClosed sent0)
-                      else (st0, mkO None (length bs) [] (sent0 ++ [SApp bs]))
-               end
+          (* a fatal error noted by the read half: nothing is sent any more *)
+          match s_fatal st0 with
+          | Some e => (st0, fail e sent0)
+          | None =>
+              if s_cns st0 then (st0, fail XShutdown sent0)
+              else match bs with
+                   | [] => (st0, mkO None 0 [] sent0)
+                   | _ => if tx_dead st0 then (note_fatal (set_out_err st0 (Some XClosed)) (Some XClosed), fail XClosed sent0)
+                          else (st0, mkO None (length bs) [] (sent0 ++ [SApp bs]))
+                   end
+          end
       end
   end.
 
